@@ -360,10 +360,22 @@ func runHist(st *state, rng *rand.Rand, c reporter, sample bool, s scen) *histo 
 	role := s.ph.role
 	h.id = dsim.MsgID(cl.KS.ValidatorPK.Serialize(), role)
 	h.duty = dsim.DutyFor(role, dsim.BaseSlot(role, 0, s.ph.deneb))
-	if err := cl.StartDuty(h.op, h.duty, "fresh", nil); err != nil {
-		c.Inconclusive("harness: duty start failed: " + err.Error())
-		return nil
+	// fault: the publish of the operator's own pre-consensus share fails (Network.Broadcast returns an error) - the duty start
+	// reports the error, the duty stays set up, and the other operators' shares still arrive. Safety clauses only.
+	publishFails := s.ph.pre && !s.queue && rng.Intn(12) == 0
+	if publishFails {
+		h.op.FailPublish, h.op.FailPublishTypes = 1, nil
 	}
+	if err := cl.StartDuty(h.op, h.duty, "fresh", nil); err != nil {
+		if !publishFails || h.op.PublishesFailed == 0 {
+			c.Inconclusive("harness: duty start failed: " + err.Error())
+			return nil
+		}
+		h.noLiveness = true
+		h.logf("the publish of the operator's own share failed at duty start: %v", err)
+		c.Count("own_share_publish_failed", 1)
+	}
+	h.op.FailPublish = 0
 	cl.Pool = nil
 	preExp, preTyp, _ := dsim.PreExpected(h.duty, h.op.Share)
 	if s.ph.pre {
@@ -508,7 +520,9 @@ func (h *histo) buildMessages() []pmsg {
 			}
 			good = h.own(k)
 			if good == nil {
-				h.c.Inconclusive("harness: operator under test did not broadcast its own share")
+				if !h.noLiveness { // (with an injected publish failure there is no own share on the wire)
+					h.c.Inconclusive("harness: operator under test did not broadcast its own share")
+				}
 				continue
 			}
 			list = append(list, pmsg{from: id, m: good, label: "own", pair: -1})
